@@ -6,16 +6,16 @@ the one-sided fall-back of the three-point scheme.
 namespace Bpp.NumDeriv
 open Bpp Bpp.Scalar
 
-/-- the wrapped function's side is unconstrained and `f` stays below `VERY_BIG` -/
+/-- the wrapped function's side is unconstrained (the caller's list may carry constraints); that `f`
+stays below `VERY_BIG` at the accepted probes is the separate, local hypothesis `BoundedNear` -/
 structure FreeFn (f : List ℝ → ℝ) (params B : PList ℝ) : Prop where
   ctx : Ctx params B
   nocon : ∀ b ∈ B, b.con = none
-  bounded : ∀ pt, tooBig (f pt) = false
 
 /-- a probe accepted by the constraint of the probed parameter -/
 theorem attempt_ok (f : List ℝ → ℝ) {params B : PList ℝ} (hF : FreeFn f params B) {var : Name} {fn : Fn ℝ}
     (q0 : Param ℝ) (rest : PList ℝ) (h : RI f params B var fn (q0 :: rest)) (hprec : q0.prec = 0) (x : ℝ)
-    (hacc : q0.violates x = false) :
+    (hacc : q0.violates x = false) (hbx : tooBig (f (values (upd1 B var x))) = false) :
     attempt f fn (q0 :: rest) x =
       ⟨(attempt f fn (q0 :: rest) x).fn, [{ q0 with value := x }], some (f (values (upd1 B var x))), true⟩ ∧
     (attempt f fn (q0 :: rest) x).fn.params = upd1 B var x ∧ (attempt f fn (q0 :: rest) x).fn.OK f := by
@@ -39,7 +39,7 @@ theorem attempt_ok (f : List ℝ → ℝ) {params B : PList ℝ} (hF : FreeFn f 
   | true =>
     simp only [if_true]
     have hOK : ((fn.withParams (upd1 B var x)).fire f).OK f := fire_OK f _
-    have hb : tooBig ((fn.withParams (upd1 B var x)).fire f).fval = false := by rw [hOK]; exact hF.bounded _
+    have hb : tooBig ((fn.withParams (upd1 B var x)).fire f).fval = false := by rw [hOK]; exact hbx
     rw [hb]
     simp only [Bool.false_eq_true, if_false]
     exact ⟨rfl, rfl, hOK⟩
@@ -49,7 +49,7 @@ theorem attempt_ok (f : List ℝ → ℝ) {params B : PList ℝ} (hF : FreeFn f 
     rw [hupd] at hsame
     have hOK : (fn.withParams (upd1 B var x)).OK f := by
       unfold Fn.OK; rw [withParams_params, hsame]; exact hok
-    have hb : tooBig (fn.withParams (upd1 B var x)).fval = false := by rw [hOK]; exact hF.bounded _
+    have hb : tooBig (fn.withParams (upd1 B var x)).fval = false := by rw [hOK]; exact hbx
     rw [hb]
     simp only [Bool.false_eq_true, if_false]
     refine ⟨?_, rfl, hOK⟩
@@ -73,7 +73,8 @@ theorem attempt_refused (f : List ℝ → ℝ) (fn : Fn ℝ) (q0 : Param ℝ) (r
 /-- a retry loop whose first try is accepted -/
 theorem retry_ok (f : List ℝ → ℝ) {params B : PList ℝ} (hF : FreeFn f params B) {var : Name} (rp : Bool) (value : ℝ)
     (n : Nat) (fn : Fn ℝ) (q0 : Param ℝ) (rest : PList ℝ) (h : ℝ) (fv : Option ℝ)
-    (hri : RI f params B var fn (q0 :: rest)) (hprec : q0.prec = 0) (hacc : q0.violates (value + h) = false) (hh : h ≠ 0) :
+    (hri : RI f params B var fn (q0 :: rest)) (hprec : q0.prec = 0) (hacc : q0.violates (value + h) = false) (hh : h ≠ 0)
+    (hbx : tooBig (f (values (upd1 B var (value + h)))) = false) :
     (retry f rp (n + 1) fn (q0 :: rest) value h fv).exc = none ∧
     (retry f rp (n + 1) fn (q0 :: rest) value h fv).hf = some h ∧
     (retry f rp (n + 1) fn (q0 :: rest) value h fv).h = h ∧
@@ -81,7 +82,7 @@ theorem retry_ok (f : List ℝ → ℝ) {params B : PList ℝ} (hF : FreeFn f pa
     (retry f rp (n + 1) fn (q0 :: rest) value h fv).p = [{ q0 with value := value + h }] ∧
     (retry f rp (n + 1) fn (q0 :: rest) value h fv).fn.params = upd1 B var (value + h) ∧
     (retry f rp (n + 1) fn (q0 :: rest) value h fv).fn.OK f := by
-  obtain ⟨a1, a2, a3⟩ := attempt_ok f hF q0 rest hri hprec (value + h) hacc
+  obtain ⟨a1, a2, a3⟩ := attempt_ok f hF q0 rest hri hprec (value + h) hacc hbx
   have hz : eqb h zero = false := by
     cases hb : eqb h zero with
     | false => rfl
@@ -96,7 +97,8 @@ theorem retry_ok (f : List ℝ → ℝ) {params B : PList ℝ} (hF : FreeFn f pa
 theorem retry_flip (f : List ℝ → ℝ) {params B : PList ℝ} (hF : FreeFn f params B) {var : Name} (rp : Bool) (value : ℝ)
     (n : Nat) (fn : Fn ℝ) (q0 : Param ℝ) (rest : PList ℝ) (h : ℝ) (fv : Option ℝ)
     (hri : RI f params B var fn (q0 :: rest)) (hprec : q0.prec = 0) (hval : q0.value = value) (hneg : h < 0)
-    (hrej : q0.violates (value + h) = true) (hacc : q0.violates (value + -h) = false) :
+    (hrej : q0.violates (value + h) = true) (hacc : q0.violates (value + -h) = false)
+    (hbx : tooBig (f (values (upd1 B var (value + -h)))) = false) :
     (retry f rp (n + 2) fn (q0 :: rest) value h fv).exc = none ∧
     (retry f rp (n + 2) fn (q0 :: rest) value h fv).hf = some (-h) ∧
     (retry f rp (n + 2) fn (q0 :: rest) value h fv).h = -h ∧
@@ -111,7 +113,7 @@ theorem retry_flip (f : List ℝ → ℝ) {params B : PList ℝ} (hF : FreeFn f 
     conv_lhs => unfold retry
     simp only [href, Bool.false_eq_true, if_false, Nat.add_one_ne_zero, hlt, if_true]
   rw [hstep]
-  exact retry_ok f hF rp value n fn q0 rest (-h) fv hri hprec hacc (neg_ne_zero.mpr (ne_of_lt hneg))
+  exact retry_ok f hF rp value n fn q0 rest (-h) fv hri hprec hacc (neg_ne_zero.mpr (ne_of_lt hneg)) hbx
 
 
 theorem dev_upd1 (B : PList ℝ) (var : Name) (y : ℝ) : Dev B (upd1 B var y) (fun n => n = var) := by
@@ -134,7 +136,7 @@ by the constraint of the passed parameter, the scheme probes at `x + H` and `x +
 theorem step3_right (f : List ℝ → ℝ) {params B : PList ℝ} (hF : FreeFn f params B) {w0 : W ℝ} (lp : Loop ℝ)
     (hLI : LI f params B w0 (fun w => w.f2) lp) (i : Nat) (var : Name) (b qv : Param ℝ)
     (hqv : find? params var = some qv) (hb : find? B var = some b) (hlast : lp.lastVar ≠ some var) (hh : 0 < lp.w.h)
-    (hprec : qv.prec = 0)
+    (hprec : qv.prec = 0) (hB : BoundedNear f B lp.w.h)
     (hrej : qv.violates (b.value + -(one + Scalar.abs b.value) * lp.w.h) = true)
     (hacc1 : qv.violates (b.value + -(-(one + Scalar.abs b.value) * lp.w.h)) = false)
     (hacc2 : qv.violates (b.value + -(-(one + Scalar.abs b.value) * lp.w.h) / ofInt 2) = false) :
@@ -188,6 +190,7 @@ theorem step3_right (f : List ℝ → ℝ) {params B : PList ℝ} (hF : FreeFn f
     have : -(one + Scalar.abs b.value) * lp.w.h = -((one + Scalar.abs b.value) * lp.w.h) := by ring
     rw [this]; linarith
   obtain ⟨a1, a2, a3, a4, a5, a6, a7⟩ := retry_flip f hF true b.value 8 lp.w.fn qv rest _ none hri hprec hqval hneg hrej hacc1
+    (hB.at' var b hb _ 1 (by simp) (by ring))
   -- second loop
   have hnl : ltb (-(-(one + Scalar.abs b.value) * lp.w.h)) zero = false := by
     rw [ScalarReal.ltb_false_iff]; simp only [ScalarReal.zero_eq]; linarith
@@ -202,6 +205,8 @@ theorem step3_right (f : List ℝ → ℝ) {params B : PList ℝ} (hF : FreeFn f
   obtain ⟨c1, c2, _, c4, _, _, _⟩ := retry_ok f hF false b.value 9 _ { qv with value := b.value + -(-(one + Scalar.abs b.value) * lp.w.h) } []
     (-(-(one + Scalar.abs b.value) * lp.w.h) / ofInt 2) none hri3 hprec
     (by rw [violates_value_irrel]; exact hacc2) hh3
+    (hB.at' var b hb _ (1 / 2) (by rw [abs_le]; constructor <;> norm_num)
+      (by simp only [ScalarReal.ofInt_eq]; push_cast; ring))
   -- assemble
   unfold step3
   have hnh : (!has params var) = false := by rw [hhas]; rfl
@@ -214,7 +219,8 @@ theorem step3_right (f : List ℝ → ℝ) {params B : PList ℝ} (hF : FreeFn f
 /-- `updateDerivatives` of the three-point scheme for one selected variable sitting next to the
 lower bound of the constraint it is passed with -/
 theorem update3_right (f : List ℝ → ℝ) (w : W ℝ) (params : PList ℝ) (v : Name) (hown : Own w.fn) (hok : w.fn.OK f)
-    (hF : FreeFn f params w.fn.params) (hpnd : (names params).Nodup) (hc1 : w.c1 = true) (hcx : w.cx = false)
+    (hF : FreeFn f params w.fn.params) (hB : BoundedNear f w.fn.params w.h)
+    (hpnd : (names params).Nodup) (hc1 : w.c1 = true) (hcx : w.cx = false)
     (hvars : w.vars = [v]) (hh : 0 < w.h) (b qv : Param ℝ)
     (hqv : find? params v = some qv) (hb : find? w.fn.params v = some b) (hprec : qv.prec = 0)
     (hrej : qv.violates (b.value + -(one + Scalar.abs b.value) * w.h) = true)
@@ -248,13 +254,13 @@ theorem update3_right (f : List ℝ → ℝ) (w : W ℝ) (params : PList ℝ) (v
   have hp1 : fn1.params = w.fn.params := by have := g1 trivial; simpa using this
   have hval : fn1.fval = f (values w.fn.params) := by rw [← hp1]; exact g2
   simp only []
-  have htb : tooBig fn1.fval = false := by rw [hval]; exact hF.bounded _
+  have htb : tooBig fn1.fval = false := by rw [hval]; exact hB.base
   rw [htb]
   simp only [Bool.false_eq_true, if_false]
   have hLI0 : LI f params w.fn.params { w with fn := fn1, f2 := fn1.fval } (fun w => w.f2)
       { w := { w with fn := fn1, f2 := fn1.fval }, p := [], lastVar := none } :=
     ⟨g2, (by rw [hp1]; exact Dev.refl _ _), (fun l h => by cases h), Frame.refl _, rfl⟩
-  obtain ⟨s1, s2, s3, s4⟩ := step3_right f hF _ hLI0 0 v b qv hqv hb (by simp) hh hprec hrej hacc1 hacc2
+  obtain ⟨s1, s2, s3, s4⟩ := step3_right f hF _ hLI0 0 v b qv hqv hb (by simp) hh hprec hB hrej hacc1 hacc2
   have hLI1 := step3_LI f hc _ hLI0 0 v _ rfl s1
   rcases hs : step3 f params { w := { w with fn := fn1, f2 := fn1.fval }, p := [], lastVar := none } 0 v with ⟨lp1, e1⟩
   rw [hs] at s1 s2 s3 s4 hLI1
